@@ -221,6 +221,28 @@ func (x *Exec) callInterface(st *State, call *ast.CallExpr, f *ast.SelectorExpr,
 	it := x.typeOf(f.X)
 	v := x.eval(st, f.X)
 	sig := m.Type().(*types.Signature)
+	if opts, ok := x.p.PureMethods[typeStr(it)+"."+m.Name()]; ok && sig.Params().Len() == 0 && sig.Results().Len() == 1 {
+		// assumed: a deterministic function of the receiver value (listed in the evidence)
+		if x.spec == 0 {
+			x.oblige(st, "nil", "", Neq(v, ifaceNil), call)
+		}
+		msg := "assumed pure: " + typeStr(it) + "." + m.Name() + " is a deterministic function of its receiver value (the receiver's data is immutable)"
+		seen := false
+		for _, a := range x.assumed {
+			if a == msg {
+				seen = true
+			}
+		}
+		if !seen {
+			x.assumed = append(x.assumed, msg)
+		}
+		rt := sig.Results().At(0).Type()
+		r := x.app("pure!"+sanitize(typeStr(it)+"."+m.Name()), x.p.Reg.sortOf(rt), v)
+		if strings.Contains(opts, "nonnil") && !r.Bound {
+			x.axiom(Implies(Neq(v, ifaceNil), Neq(r, x.zero(rt))))
+		}
+		return []*Term{r}
+	}
 	if !x.p.closedWorld(it) {
 		args := x.evalArgs(st, call, sig, nil)
 		_ = args
@@ -1185,6 +1207,13 @@ func (x *Exec) evalMarker(st *State, call *ast.CallExpr, name string) *Term {
 		x.spec++
 		defer func() { x.spec-- }()
 		return x.eval(tmp, call.Args[0])
+	case "__assert":
+		if x.spec == 0 {
+			c := x.evalSpec(st.clone(), closureExpr(call.Args[1]))
+			x.oblige(st, "assert", strLit(call.Args[0], x.info()), c, call)
+			st.assume(c)
+		}
+		return tTrue
 	case "__imp":
 		return Implies(x.eval(st, call.Args[0]), x.eval(st, call.Args[1]))
 	case "__iff":
@@ -1246,6 +1275,60 @@ func (x *Exec) evalMarker(st *State, call *ast.CallExpr, name string) *Term {
 			return Forall([]*Term{bv}, Implies(rng, body))
 		}
 		return Exists([]*Term{bv}, And(rng, body))
+	case "__forallkeys":
+		m := x.eval(st, call.Args[0])
+		mt, okm := x.typeOf(call.Args[0]).Underlying().(*types.Map)
+		fl, ok := call.Args[1].(*ast.FuncLit)
+		if !ok || !okm {
+			x.unsupported(call, "forall over keys needs a map and a function literal")
+		}
+		dn, _, ks, _ := x.mapHeaps(mt)
+		dom := x.hread(st, dn, mapSort(ks, SBool), m)
+		pv := x.info().Defs[fl.Type.Params.List[0].Names[0]].(*types.Var)
+		x.nfresh++
+		bv := BoundVar(fmt.Sprintf("%s!q%d", pv.Name(), x.nfresh), ks)
+		tmp := st.clone()
+		tmp.vars[pv] = bv
+		x.boundVars[pv] = bv
+		body := x.eval(tmp, closureExpr(fl))
+		delete(x.boundVars, pv)
+		return ForallPat([]*Term{bv}, Implies(And(Neq(m, IntLit(0)), mk("select", SBool, dom, bv)), body), mk("select", SBool, dom, bv))
+	case "__forallcells":
+		fl, ok := call.Args[0].(*ast.FuncLit)
+		if !ok {
+			x.unsupported(call, "quantifier body must be a function literal")
+		}
+		pv := x.info().Defs[fl.Type.Params.List[0].Names[0]].(*types.Var)
+		if _, isPtr := pv.Type().Underlying().(*types.Pointer); !isPtr {
+			x.unsupported(call, "forall ... in allocated needs a pointer-typed variable")
+		}
+		es := x.entryState()
+		if es == nil {
+			x.unsupported(call, "forall ... in allocated without entry state")
+		}
+		x.nfresh++
+		bv := BoundVar(fmt.Sprintf("%s!q%d", pv.Name(), x.nfresh), SInt)
+		tmp := st.clone()
+		tmp.vars[pv] = bv
+		x.boundVars[pv] = bv
+		body := x.eval(tmp, closureExpr(fl))
+		delete(x.boundVars, pv)
+		return Forall([]*Term{bv}, Implies(And(Lt(IntLit(0), bv), Lt(bv, es.alloc)), body))
+	case "__haskey":
+		m := x.eval(st, call.Args[0])
+		mt, okm := x.typeOf(call.Args[0]).Underlying().(*types.Map)
+		if !okm {
+			x.unsupported(call, "haskey needs a map")
+		}
+		k := x.eval(st, call.Args[1])
+		dn, _, ks, _ := x.mapHeaps(mt)
+		dom := x.hread(st, dn, mapSort(ks, SBool), m)
+		return And(Neq(m, IntLit(0)), selectKV(dom, k, SBool))
+	case "__visited":
+		if len(x.visStack) == 0 {
+			x.unsupported(call, "visited() outside the invariant of a range-over-map loop")
+		}
+		return selectKV(x.visStack[len(x.visStack)-1], x.eval(st, call.Args[0]), SBool)
 	case "__fresh":
 		v := x.eval(st, call.Args[0])
 		var base *Term
